@@ -153,7 +153,8 @@ class Reader:
         offs = [affine(self._index_expr(o, pos)) for o in ops]
         if any(o is None for o in offs):
             return False
-        return all(offs[i] == self._shift(offs[0], i) for i in range(len(offs)))
+        nz = lambda d: {k: v for k, v in d.items() if v != 0}
+        return all(nz(offs[i]) == nz(self._shift(offs[0], i)) for i in range(len(offs)))
 
     def _index_expr(self, op, pos):
         """index expression of the byte access that defines operand `op` (a copy of bytes[i])"""
@@ -225,6 +226,41 @@ class Reader:
                 return None
             if t.callee.method == "len" and len(t.args) == 1 and params_of(self.pv.of_operand(body, t.args[0]), body.id) == {self.input_param}:
                 return S("LEN")
+            # a private, loop-free read helper (`u32_at(&bytes, offset)`): its own return value is read with a Reader of its own (offsets over
+            # its parameters) and the actual arguments are substituted
+            hb = self.prog.bodies.get(t.callee.res) if t.callee.res else None
+            if hb is not None and hb.kind in ("Fn", "AssocFn") and not (hb.exported or hb.reachable) and not hb.natural_loops() and not getattr(self, "param_syms", False):
+                ins = [i for i, a in enumerate(t.args) if a.place is not None and params_of(self.pv.of_operand(body, a), body.id) == {self.input_param}
+                       and re.search(r"\[u8\]|Bytes<", hb.locals[i + 1]["s"] if i + 1 < len(hb.locals) else "")]
+                if len(ins) == 1:
+                    sub = Reader.__new__(Reader)
+                    sub.param_syms = True
+                    sub.__init__(self.prog, hb, ins[0] + 1)
+                    rets = []
+                    for kind2, pos2, d2 in sub.pv.defs(hb).get(0, []):
+                        rets.append(sub.ex.rvalue(hb, d2, 0, pos2) if kind2 == "assign" else sub.ex.call(hb, d2, 0, pos2))
+                    if len(rets) == 1 and rets[0][0] == "s" and rets[0][1] in sub.sym_bytes:
+                        offs = []
+                        for off in sub.sym_bytes[rets[0][1]]:
+                            new = {}
+                            for k, c in off.items():
+                                if k == ():
+                                    new[()] = new.get((), 0) + c
+                                elif isinstance(k, str) and k.startswith("arg#"):
+                                    ai = int(k[4:]) - 1
+                                    av = affine(ex.operand(body, t.args[ai], 0, getattr(ex, "_at", None))) if 0 <= ai < len(t.args) else None
+                                    if av is None:
+                                        return None
+                                    for k2, c2 in av.items():
+                                        new[k2] = new.get(k2, 0) + c * c2
+                                else:
+                                    return None
+                            offs.append({k: v for k, v in new.items() if v != 0 or k == ()})
+                        nz = lambda d: {k: v for k, v in d.items() if v != 0}
+                        if offs and all(nz(offs[i]) == nz(self._shift(offs[0], i)) for i in range(len(offs))):
+                            return self._sym(rets[0][1].split("[", 1)[0], offs[0], len(offs))
+        if kind == "param" and getattr(self, "param_syms", False):
+            return S("arg#%d" % obj[0])
         return None
 
     def fmt(self, a):
